@@ -5,15 +5,26 @@
    skeleton extracted from the source on this run is the one the model implements.
 
    Common setting of the theorems: a job is a store [st0] plus a history [h] of snapshot instances (prefix id,
-   world size, fault plan).  [fresh st0 h]: the store holds no key under any prefix of the history;
-   [distinct_prefixes h]: the prefixes are pairwise distinct (what the per-snapshot barrier id provides; the
-   uniqueness of the random 63-bit id is an assumption).  A schedule is ANY list of (instance, rank) choices: all
-   instances may overlap arbitrarily, steps that are not enabled are no-ops, no fairness is assumed.
-   Every theorem holds for every world size (including 1), every fault plan (any set of ranks whose I/O fails,
-   metadata failure or not), every history, every schedule. *)
+   world size, fault plan: ranks whose I/O fails, metadata-write failure, ranks ABSENT from the protocol).
+   [fresh st0 h]: the store holds no key under any prefix of the history; [distinct_prefixes h]: the prefixes are
+   pairwise distinct (what the per-snapshot barrier id provides; the uniqueness of the random 63-bit id is an
+   assumption).  A schedule is ANY list of choices (instance, rank, KStep | KTimeout): all instances may overlap
+   arbitrarily, choices that are not enabled are no-ops, no fairness is assumed.
+     KStep    = the rank's next store operation / I/O completion / metadata write;
+     KTimeout = the rank's pending store.wait(keys, timeout) raises: enabled whenever the rank's next operation is a
+                store.wait (leader: wait for the peers' keys in arrive; peer: wait for the leader's key in depart),
+                ALSO when the awaited keys are present or about to be set (spurious timeouts); the exception is
+                caught by `except Exception` in _complete_snapshot, whose next step is report_error.
+   An absent rank (it raised inside async_take, before its background thread and barrier existed) never steps.
+   [i_tmo x r] is a history variable: rank r of the snapshot has taken a timeout step.
+   Every theorem holds for every world size (including 1), every fault plan, every set of absent ranks, every
+   history, every schedule with arbitrarily many timeout choices - unless it says otherwise. *)
 From TS Require Import model.Base model.Barrier proofs.BarrierProofs gen.BarrierGen proofs.BarrierInst.
 
-(* The leader writes the metadata only after every rank of that snapshot has completed its I/O successfully. *)
+(* ================================================================== safety: unchanged by timeouts and absences *)
+
+(* The leader writes the metadata only after every rank of that snapshot has completed its I/O successfully.
+   (Statement unchanged; it now holds with arbitrary timeouts and absent ranks.) *)
 Theorem C13_commit_after_all_arrive : forall st0 h sch i x,
   fresh st0 h -> distinct_prefixes h ->
   nth_error (g_insts (grun (ginit st0 h) sch)) i = Some x ->
@@ -22,7 +33,7 @@ Theorem C13_commit_after_all_arrive : forall st0 h sch i x,
 Proof. exact commit_after_all_arrive. Qed.
 Print Assumptions C13_commit_after_all_arrive.
 
-(* No rank (leader or not) reports completion before the leader has committed. *)
+(* No rank (leader or not) reports completion before the leader has committed.  (Statement unchanged.) *)
 Theorem C13_depart_after_commit : forall st0 h sch i x,
   fresh st0 h -> distinct_prefixes h ->
   nth_error (g_insts (grun (ginit st0 h) sch)) i = Some x ->
@@ -30,10 +41,25 @@ Theorem C13_depart_after_commit : forall st0 h sch i x,
 Proof. exact depart_after_commit. Qed.
 Print Assumptions C13_depart_after_commit.
 
-(* Any fault in the plan of snapshot i (some rank's I/O fails, or the metadata write fails): in every reachable
-   state no rank of i has completed successfully, every rank that has terminated has Raised, and the metadata
-   is not written (for a metadata-write failure this relies on the write being atomic in the model). *)
+(* Error reaches everyone.  [global_cause x] = a fault in the plan of snapshot i (some rank's I/O fails, or the
+   metadata write fails) OR some rank of i is absent OR the LEADER has taken a timeout step (in arrive).  Then in
+   every reachable state no rank of i has completed successfully (no wait() returns normally), every rank whose
+   background thread has terminated has Raised, and the metadata is not written (for a metadata-write failure this
+   relies on the write being atomic in the model).
+   What is NOT in the hypothesis - and cannot be, see C13_timeout_error_reaches_everyone_refuted - is a timeout
+   step of a PEER (in depart). *)
 Theorem C13_error_reaches_everyone : forall st0 h sch i x,
+  fresh st0 h -> distinct_prefixes h ->
+  nth_error (g_insts (grun (ginit st0 h) sch)) i = Some x ->
+  global_cause x ->
+  (forall r, (r < i_W x)%nat -> i_pcs x r <> PDone) /\
+  (forall r, (r < i_W x)%nat -> terminated (i_pcs x r) = true -> i_pcs x r = PRaised) /\
+  i_meta x = false.
+Proof. exact error_reaches_everyone_gen. Qed.
+Print Assumptions C13_error_reaches_everyone.
+
+(* The statement of the timeout-free model, literally (hypothesis: a fault in the plan): a corollary. *)
+Corollary C13_fault_reaches_everyone : forall st0 h sch i x,
   fresh st0 h -> distinct_prefixes h ->
   nth_error (g_insts (grun (ginit st0 h) sch)) i = Some x ->
   has_fault x ->
@@ -41,148 +67,419 @@ Theorem C13_error_reaches_everyone : forall st0 h sch i x,
   (forall r, (r < i_W x)%nat -> terminated (i_pcs x r) = true -> i_pcs x r = PRaised) /\
   i_meta x = false.
 Proof. exact error_reaches_everyone. Qed.
-Print Assumptions C13_error_reaches_everyone.
+Print Assumptions C13_fault_reaches_everyone.
 
-(* Conversely errors come only from faults: without a fault no rank ever raises. *)
-Theorem C13_no_fault_no_error : forall st0 h sch i x,
+(* A PEER's timeout error does NOT reach everyone.  Fault-free snapshot of world size 2, every rank present: the
+   leader has read rank 1's (empty) key; rank 1's wait for the leader's key then times out (spuriously: the leader
+   is about to commit); the leader writes the metadata and succeeds; rank 1 reports the error under its own key,
+   which nobody reads any more, and its wait() raises although the snapshot is committed and complete.
+   (Stated on observables: one snapshot, W = 2, empty fault plan, nobody absent; timeout flags [false; true];
+   outcomes [Done; Raised]; metadata written; keys [leader: ""; rank 1: error text].)
+   The safety half of the property survives (the rank that reports SUCCESS is right); the propagation half does
+   not: "an error on any rank makes every rank's wait() raise with nothing committed" is false for the error
+   "store.wait timed out in depart". *)
+Theorem C13_timeout_error_reaches_everyone_refuted : exists h sch,
+  fresh [] h /\ distinct_prefixes h /\
+  map sp_W h = [2%nat] /\ map sp_iofail h = [[]] /\ map sp_metafail h = [false] /\ map sp_absent h = [[]] /\
+  BarrierTimedOut (grun (ginit [] h) sch) 0 = [false; true] /\
+  BarrierOutcomes (grun (ginit [] h) sch) 0 = [0; 1] /\
+  BarrierMeta (grun (ginit [] h) sch) 0 = true /\
+  BarrierIoDone (grun (ginit [] h) sch) 0 = [true; true] /\
+  BarrierKeys (grun (ginit [] h) sch) 0 = [Some VOk; Some VErr].
+Proof.
+  exists [ {| sp_prefix := 1; sp_W := 2%nat; sp_iofail := []; sp_metafail := false; sp_absent := [] |} ],
+         (steps [(0, 0); (0, 1); (0, 1); (0, 0); (0, 0)]%nat ++ [(0, 1, KTimeout)%nat] ++
+          steps [(0, 0); (0, 0); (0, 1)]%nat).
+  split; [intros sp _ r; reflexivity|]. split; [repeat constructor; cbn; tauto|].
+  vm_compute. repeat split.
+Qed.
+Print Assumptions C13_timeout_error_reaches_everyone_refuted.
+
+(* ... and that is the only way it can happen: once the metadata is written the leader never raises (it is about to
+   set its key or has finished), and a rank that raises is a peer that itself took a timeout step in depart. *)
+Theorem C13_after_commit_only_own_timeout_raises : forall st0 h sch i x,
   fresh st0 h -> distinct_prefixes h ->
   nth_error (g_insts (grun (ginit st0 h) sch)) i = Some x ->
+  i_meta x = true ->
+  (i_pcs x 0%nat = PDepart \/ i_pcs x 0%nat = PDone) /\
+  forall r, (r < i_W x)%nat -> i_pcs x r = PRaised -> r <> 0%nat /\ i_tmo x r = true.
+Proof. exact after_commit_only_own_timeout. Qed.
+Print Assumptions C13_after_commit_only_own_timeout_raises.
+
+(* Conversely errors come only from faults and timeouts: "no error without a fault" becomes "no error without a fault
+   or a timeout step of some rank of the snapshot".  (An absent rank alone makes nobody raise - its peers block;
+   so absence is not needed in the hypothesis: this is stronger than "... without a fault, a timeout or an absent
+   rank".) *)
+Theorem C13_no_error_without_cause : forall st0 h sch i x,
+  fresh st0 h -> distinct_prefixes h ->
+  nth_error (g_insts (grun (ginit st0 h) sch)) i = Some x ->
+  no_fault x -> no_timeout x -> forall r, (r < i_W x)%nat -> i_pcs x r <> PRaised.
+Proof. exact no_cause_no_raise. Qed.
+Print Assumptions C13_no_error_without_cause.
+
+(* the statement of the timeout-free model: a schedule WITHOUT timeout choices and a plan without a fault *)
+Corollary C13_no_fault_no_error : forall st0 h sch i x,
+  fresh st0 h -> distinct_prefixes h ->
+  Forall (fun c => is_timeout c = false) sch ->
+  nth_error (g_insts (grun (ginit st0 h) sch)) i = Some x ->
   no_fault x -> forall r, (r < i_W x)%nat -> i_pcs x r <> PRaised.
-Proof. exact no_fault_no_raise. Qed.
+Proof.
+  intros st0 h sch i x HF HD Hs Hx Hn. apply (no_cause_no_raise st0 h sch i x HF HD Hx Hn).
+  intros r _. exact (timeout_free_schedule st0 h sch i x Hs Hx r).
+Qed.
 Print Assumptions C13_no_fault_no_error.
 
-(* Never stuck: while some rank of snapshot i has not terminated, some rank of i can take a step
-   (with or without faults, whatever the other snapshots do). *)
+(* ================================================================== the timeout step *)
+
+(* If the timeout choice of rank r of snapshot i is enabled in a reachable state s, then: r stands at a store.wait
+   (the leader in arrive, a peer in depart); the step is "store.wait raised" (OTimeout on exactly the awaited keys,
+   store unchanged); r's next step is report_error: store.set(own key, error text); and in EVERY continuation r is in
+   the except handler or Raised - its wait() never returns normally - the flag i_tmo stays set, and once r has Raised
+   its key holds the error text. *)
+Theorem C13_timeout_raises_and_reports : forall st0 h sch i r,
+  fresh st0 h -> distinct_prefixes h ->
+  let s := grun (ginit st0 h) sch in
+  enabled s (i, r, KTimeout) = true ->
+  let s1 := fst (gstep s (i, r, KTimeout)) in
+  (exists x, nth_error (g_insts s) i = Some x /\ (r < i_W x)%nat /\ g_store s1 = g_store s /\
+     ((r = 0%nat /\ i_pcs x r = PArrive /\ snd (gstep s (i, r, KTimeout)) = Some (OTimeout (i_prefix x) (peers (i_W x)))) \/
+      (r <> 0%nat /\ i_pcs x r = PDepart /\ snd (gstep s (i, r, KTimeout)) = Some (OTimeout (i_prefix x) [0%nat]))) /\
+     snd (gstep s1 (i, r, KStep)) = Some (OSet (i_prefix x) r VErr)) /\
+  (forall sch2 y, nth_error (g_insts (grun s1 sch2)) i = Some y ->
+     i_tmo y r = true /\ (i_pcs y r = PHandler \/ i_pcs y r = PRaised) /\ i_pcs y r <> PDone /\
+     (i_pcs y r = PRaised -> st_get (g_store (grun s1 sch2)) (kz y r) = Some VErr)).
+Proof. exact timeout_raises_and_reports. Qed.
+Print Assumptions C13_timeout_raises_and_reports.
+
+(* The flags are what they say: a schedule without timeout choices sets none. *)
+Theorem C13_timeout_free_schedule_sets_no_flag : forall st0 h sch i x,
+  Forall (fun c => is_timeout c = false) sch ->
+  nth_error (g_insts (grun (ginit st0 h) sch)) i = Some x -> forall r, i_tmo x r = false.
+Proof. exact timeout_free_schedule. Qed.
+Print Assumptions C13_timeout_free_schedule_sets_no_flag.
+
+(* ================================================================== absent ranks *)
+
+(* Some rank of snapshot i is absent.  Then, in every reachable state: no rank's wait() returns normally; the
+   metadata is not written; the absent rank has no thread and its key is never set; if the plan has no fault, a rank
+   raises only after some timeout step (the peers of an absent rank can leave ONLY through timeouts).
+   LEADER absent vs PEER absent differ in how the others leave: with the leader absent nobody ever writes the
+   leader's key, so every rank that raises does so through ITS OWN timeout step (or its own I/O failure) - there is
+   no error text to read; with a peer absent one timeout (the leader's) is enough: the other peers read the leader's
+   error key (C13_example_absent_peer below: ranks [leader; 1] raise with timeout flags [true; false]). *)
+Theorem C13_absent_rank_means_nobody_succeeds : forall st0 h sch i x,
+  fresh st0 h -> distinct_prefixes h ->
+  nth_error (g_insts (grun (ginit st0 h) sch)) i = Some x ->
+  has_absent x ->
+  (forall r, (r < i_W x)%nat -> i_pcs x r <> PDone) /\
+  i_meta x = false /\
+  (forall r, (r < i_W x)%nat -> absent x r = true ->
+     i_pcs x r = PAbsent /\ st_get (g_store (grun (ginit st0 h) sch)) (kz x r) = None) /\
+  (no_fault x -> forall r, (r < i_W x)%nat -> i_pcs x r = PRaised -> timed_out x) /\
+  (absent x 0 = true -> forall r, (r < i_W x)%nat -> i_pcs x r = PRaised -> i_tmo x r = true \/ iofails x r = true).
+Proof. exact absent_rank_means_nobody_succeeds. Qed.
+Print Assumptions C13_absent_rank_means_nobody_succeeds.
+
+(* ================================================================== liveness *)
+
+(* WITH timeouts nobody is ever stuck, whoever takes part: every rank whose background thread exists and has not
+   finished can ITSELF take a normal step or its timeout step - in every reachable state, with any faults, any absent
+   ranks, whatever the other snapshots do.  (This replaces the participation assumption of the timeout-free model.) *)
+Theorem C13_rank_never_stuck : forall st0 h sch i x r,
+  fresh st0 h -> distinct_prefixes h ->
+  nth_error (g_insts (grun (ginit st0 h) sch)) i = Some x ->
+  (r < i_W x)%nat -> live (i_pcs x r) = true ->
+  enabled (grun (ginit st0 h) sch) (i, r, KStep) = true \/ enabled (grun (ginit st0 h) sch) (i, r, KTimeout) = true.
+Proof. exact rank_never_stuck. Qed.
+Print Assumptions C13_rank_never_stuck.
+
+(* WITHOUT needing any timeout, if every rank of snapshot i takes part: while some rank is live some rank of i can take
+   a NORMAL step (with or without faults, whatever timeouts happened before, whatever the other snapshots do).
+   The hypothesis [no_absent x] is new and necessary (C13_example_absent_peer_blocks). *)
 Theorem C13_deadlock_free : forall st0 h sch i x r,
   fresh st0 h -> distinct_prefixes h ->
   nth_error (g_insts (grun (ginit st0 h) sch)) i = Some x ->
-  (r < i_W x)%nat -> terminated (i_pcs x r) = false ->
-  exists r', (r' < i_W x)%nat /\ enabled (grun (ginit st0 h) sch) (i, r') = true.
+  no_absent x ->
+  (r < i_W x)%nat -> live (i_pcs x r) = true ->
+  exists r', (r' < i_W x)%nat /\ enabled (grun (ginit st0 h) sch) (i, r', KStep) = true.
 Proof. exact deadlock_free. Qed.
 Print Assumptions C13_deadlock_free.
 
-(* Complete schedules (after which no rank of snapshot i can step): without a fault every rank is Done and
-   the metadata is written; with a fault every rank's wait() raises and nothing is committed. *)
+(* No infinite executions: from ANY state, a schedule all of whose choices (normal steps and timeouts, of any
+   instances, in any order) are enabled when taken has at most gmeasure s elements. *)
+Theorem C13_executions_are_bounded : forall s sch,
+  effective s sch = true -> (length sch + gmeasure (grun s sch) <= gmeasure s)%nat.
+Proof. exact effective_bounded. Qed.
+Print Assumptions C13_executions_are_bounded.
+
+(* Complete schedules without (further) timeouts - after which no rank of snapshot i can take a NORMAL step:
+   if nobody is absent every rank has terminated; without fault, absence and timeout every rank is Done and the
+   metadata is written; with a fault, or after a timeout of the leader, every rank's wait() raises and nothing is
+   committed.  (After a peer's timeout alone the outcome is mixed: the two theorems above C13_no_error_without_cause
+   say exactly how.) *)
 Theorem C13_no_fault_all_done : forall st0 h sch i x,
   fresh st0 h -> distinct_prefixes h ->
   nth_error (g_insts (grun (ginit st0 h) sch)) i = Some x ->
   quiescent_inst (grun (ginit st0 h) sch) i ->
-  (no_fault x -> (forall r, (r < i_W x)%nat -> i_pcs x r = PDone) /\ ((0 < i_W x)%nat -> i_meta x = true)) /\
-  (has_fault x -> (forall r, (r < i_W x)%nat -> i_pcs x r = PRaised) /\ i_meta x = false).
+  (no_absent x -> forall r, (r < i_W x)%nat -> terminated (i_pcs x r) = true) /\
+  (no_fault x -> no_absent x -> no_timeout x ->
+     (forall r, (r < i_W x)%nat -> i_pcs x r = PDone) /\ ((0 < i_W x)%nat -> i_meta x = true)) /\
+  (has_fault x \/ i_tmo x 0%nat = true -> no_absent x ->
+     (forall r, (r < i_W x)%nat -> i_pcs x r = PRaised) /\ i_meta x = false).
 Proof. exact complete_schedule_outcomes. Qed.
 Print Assumptions C13_no_fault_all_done.
 
+(* Maximal executions with timeouts - states in which no rank of snapshot i can take ANY step: every background thread
+   that exists has finished, whoever is absent; with a global cause all of them Raised and nothing is committed;
+   without any cause all Done and committed. *)
+Theorem C13_maximal_execution_outcomes : forall st0 h sch i x,
+  fresh st0 h -> distinct_prefixes h ->
+  nth_error (g_insts (grun (ginit st0 h) sch)) i = Some x ->
+  quiescent_all (grun (ginit st0 h) sch) i ->
+  (forall r, (r < i_W x)%nat -> i_pcs x r = PDone \/ i_pcs x r = PRaised \/ i_pcs x r = PAbsent) /\
+  (global_cause x -> (forall r, (r < i_W x)%nat -> i_pcs x r = PRaised \/ i_pcs x r = PAbsent) /\ i_meta x = false) /\
+  (no_fault x -> no_absent x -> no_timeout x ->
+     (forall r, (r < i_W x)%nat -> i_pcs x r = PDone) /\ ((0 < i_W x)%nat -> i_meta x = true)).
+Proof. exact all_quiescent_outcomes. Qed.
+Print Assumptions C13_maximal_execution_outcomes.
+
 (* Complete schedules exist and are reached by fairness alone: from ANY state (reachable or not), running
-   round-robin rounds - every (instance, rank) once per round - for gmeasure s + 1 rounds ends in a state where
-   no step of any instance is enabled. *)
+   round-robin rounds of NORMAL steps - every (instance, rank) once per round - for gmeasure s + 1 rounds ends in a
+   state where no normal step of any instance is enabled.  (The timeout-free theorem, unchanged up to the type of
+   choices.) *)
 Theorem C13_fair_schedule_completes : forall s,
-  forall c, enabled (grun s (rounds s (S (gmeasure s)))) c = false.
+  forall i r, enabled (grun s (rounds s (S (gmeasure s)))) (i, r, KStep) = false.
 Proof. exact rounds_quiesce. Qed.
 Print Assumptions C13_fair_schedule_completes.
 
-(* Hence: ANY schedule prefix, continued fairly, ends with every rank of every fault-free snapshot Done and its
-   metadata written, and every rank of every faulty snapshot Raised with nothing committed. *)
+(* With fair timeouts - every (instance, rank) gets per round one normal step and then, if it is about to wait, its
+   timeout - gmeasure s + 1 rounds end in a state where NOTHING is enabled.  (In this particular schedule timeouts
+   fire eagerly; C13_rank_never_stuck + C13_executions_are_bounded say the same of every scheduler that keeps choosing
+   enabled choices.) *)
+Theorem C13_fair_timeout_schedule_terminates : forall s,
+  forall c, enabled (grun s (rounds_t s (S (gmeasure s)))) c = false.
+Proof. exact rounds_t_quiesce. Qed.
+Print Assumptions C13_fair_timeout_schedule_terminates.
+
+(* Hence: ANY schedule prefix (timeouts included), continued fairly WITHOUT further timeouts: if every rank takes
+   part all terminate; every rank of a snapshot without fault/absence/timeout is Done and its metadata written;
+   every rank of a faulty snapshot (or one whose leader timed out) Raised with nothing committed. *)
 Theorem C13_fair_completion_outcomes : forall st0 h sch i x,
   fresh st0 h -> distinct_prefixes h ->
   let s := grun (ginit st0 h) sch in
   nth_error (g_insts (grun s (rounds s (S (gmeasure s))))) i = Some x ->
-  (no_fault x -> (forall r, (r < i_W x)%nat -> i_pcs x r = PDone) /\ ((0 < i_W x)%nat -> i_meta x = true)) /\
-  (has_fault x -> (forall r, (r < i_W x)%nat -> i_pcs x r = PRaised) /\ i_meta x = false).
+  (no_absent x -> forall r, (r < i_W x)%nat -> terminated (i_pcs x r) = true) /\
+  (no_fault x -> no_absent x -> no_timeout x ->
+     (forall r, (r < i_W x)%nat -> i_pcs x r = PDone) /\ ((0 < i_W x)%nat -> i_meta x = true)) /\
+  (has_fault x \/ i_tmo x 0%nat = true -> no_absent x ->
+     (forall r, (r < i_W x)%nat -> i_pcs x r = PRaised) /\ i_meta x = false).
 Proof. exact fair_completion_outcomes. Qed.
 Print Assumptions C13_fair_completion_outcomes.
 
-(* Steps of other snapshots never change a key under snapshot i's prefix nor snapshot i's local state: a
-   schedule consisting only of steps of instances other than i leaves both untouched.  (The theorems above are
-   proved for whole histories directly; this is the reason they go through.) *)
+(* ... and continued fairly WITH timeouts: every background thread that exists finishes, WITHOUT assuming that
+   every rank takes part; with a fault, an absent rank or a leader timeout all of them Raised, nothing committed. *)
+Theorem C13_fair_timeout_completion_outcomes : forall st0 h sch i x,
+  fresh st0 h -> distinct_prefixes h ->
+  let s := grun (ginit st0 h) sch in
+  nth_error (g_insts (grun s (rounds_t s (S (gmeasure s))))) i = Some x ->
+  (forall r, (r < i_W x)%nat -> i_pcs x r = PDone \/ i_pcs x r = PRaised \/ i_pcs x r = PAbsent) /\
+  (global_cause x -> (forall r, (r < i_W x)%nat -> i_pcs x r = PRaised \/ i_pcs x r = PAbsent) /\ i_meta x = false) /\
+  (no_fault x -> no_absent x -> no_timeout x ->
+     (forall r, (r < i_W x)%nat -> i_pcs x r = PDone) /\ ((0 < i_W x)%nat -> i_meta x = true)).
+Proof. exact fair_timeout_completion_outcomes. Qed.
+Print Assumptions C13_fair_timeout_completion_outcomes.
+
+(* ================================================================== histories *)
+
+(* Steps (normal or timeout) of other snapshots never change a key under snapshot i's prefix nor snapshot i's local
+   state: a schedule consisting only of choices of instances other than i leaves both untouched.  (The theorems
+   above are proved for whole histories directly; this is the reason they go through.) *)
 Theorem C13_instances_independent : forall s sch i x,
   NoDup (map i_prefix (g_insts s)) ->
-  nth_error (g_insts s) i = Some x -> Forall (fun c => fst c <> i) sch ->
+  nth_error (g_insts s) i = Some x -> Forall (fun c => c_inst c <> i) sch ->
   nth_error (g_insts (grun s sch)) i = Some x /\
   forall q, st_get (g_store (grun s sch)) (i_prefix x, q) = st_get (g_store s) (i_prefix x, q).
 Proof. exact instances_independent. Qed.
 Print Assumptions C13_instances_independent.
 
-(* The i-th instance of a run is the i-th snapshot of the history: prefix, world size and fault plan are static. *)
+(* The i-th instance of a run is the i-th snapshot of the history: prefix, world size, fault plan and the set of
+   absent ranks are static. *)
 Theorem C13_history_static : forall st0 h sch i sp,
   nth_error h i = Some sp ->
   exists x, nth_error (g_insts (grun (ginit st0 h) sch)) i = Some x /\
-            i_prefix x = sp_prefix sp /\ i_W x = sp_W sp /\ i_iofail x = sp_iofail sp /\ i_metafail x = sp_metafail sp.
+            i_prefix x = sp_prefix sp /\ i_W x = sp_W sp /\ i_iofail x = sp_iofail sp /\ i_metafail x = sp_metafail sp /\
+            i_absent x = sp_absent sp.
 Proof. exact reach_static. Qed.
 Print Assumptions C13_history_static.
 
-(* The code read on this run has the structure the model implements; the barrier prefix mentions both the
-   path and the per-snapshot barrier id; that id is the one rank 0 broadcasts in async_take. *)
+(* ================================================================== the tie to the source read on this run *)
+
+(* The code read on this run has the structure the model implements; the barrier prefix mentions both the path and
+   the per-snapshot barrier id; that id is the one rank 0 broadcasts in async_take.  And what justifies the timeout
+   transition: the store.wait calls are exactly {leader in arrive on the peers' keys, peer in depart on the leader's
+   key}, each passes the method's `timeout` parameter, which _complete_snapshot sets to DEFAULT_BARRIER_TIMEOUT; both
+   calls sit in the try whose handler catches Exception, calls report_error (a store.set of a never-empty text
+   under the own key) and then records exc_info; wait() raises exactly when exc_info is set. *)
 Theorem C13_source_skeleton_is_modelled :
-  gen_skeleton = model_skeleton /\ gen_prefix_uses_barrier_id = true /\ gen_barrier_id_is_broadcast = true.
-Proof. exact (conj gen_skeleton_is_model (conj gen_prefix_ok gen_barrier_id_broadcast_ok)). Qed.
+  gen_skeleton = model_skeleton /\ gen_prefix_uses_barrier_id = true /\ gen_barrier_id_is_broadcast = true /\
+  wait_sites gen_skeleton = [(RLeader, PhArrive, KPeers, WTimeoutArg); (RPeer, PhDepart, KLeader, WTimeoutArg)] /\
+  gen_wait_has_timeout = true /\ timeout_is_reported gen_skeleton = true /\ gen_wait_reraises_exc_info = true.
+Proof.
+  exact (conj gen_skeleton_is_model (conj gen_prefix_ok (conj gen_barrier_id_broadcast_ok
+        (conj gen_wait_sites_ok (conj gen_wait_has_timeout_ok (conj gen_timeout_is_reported gen_wait_reraises_ok)))))).
+Qed.
 Print Assumptions C13_source_skeleton_is_modelled.
+
+(* The model's timeout step is enabled exactly at the wait sites of that skeleton. *)
+Theorem C13_timeout_enabled_exactly_at_wait_sites : forall st x r, (r < i_W x)%nat ->
+  (itimeout st x r <> None <->
+   exists ro ph t w, site_of r (i_pcs x r) = Some (ro, ph) /\ In (ro, ph, t, w) (wait_sites gen_skeleton)).
+Proof. rewrite gen_skeleton_is_model. exact timeout_enabled_iff_wait_site. Qed.
+Print Assumptions C13_timeout_enabled_exactly_at_wait_sites.
+
+(* ================================================================== shared prefixes (before the barrier id) *)
 
 (* [distinct_prefixes] is forced (this was defect D10, before the per-snapshot barrier id).  Two fault-free
    snapshots of world size 2 ON THE SAME PREFIX, the second started after the first finished: the second leader
    finds the first snapshot's keys and writes the metadata while rank 1's I/O is not done. *)
 Theorem C13_shared_prefix_refuted : exists h sch1 sch2,
   map sp_prefix h = [7; 7] /\ fresh [] h /\
-  Forall (fun c => fst c = 0%nat) sch1 /\ Forall (fun c => fst c = 1%nat) sch2 /\
+  Forall (fun c => c_inst c = 0%nat) sch1 /\ Forall (fun c => c_inst c = 1%nat) sch2 /\
+  Forall (fun c => is_timeout c = false) (sch1 ++ sch2) /\
   BarrierOutcomes (grun (ginit [] h) sch1) 0 = [0; 0] /\
   BarrierMeta (grun (ginit [] h) (sch1 ++ sch2)) 1 = true /\
   BarrierIoDone (grun (ginit [] h) (sch1 ++ sch2)) 1 = [true; false].
 Proof.
-  exists [ {| sp_prefix := 7; sp_W := 2; sp_iofail := []; sp_metafail := false |};
-           {| sp_prefix := 7; sp_W := 2; sp_iofail := []; sp_metafail := false |} ],
-         [(0, 0); (0, 1); (0, 1); (0, 0); (0, 0); (0, 0); (0, 0); (0, 1); (0, 1)]%nat,
-         [(1, 0); (1, 0); (1, 0); (1, 0)]%nat.
+  exists [ {| sp_prefix := 7; sp_W := 2; sp_iofail := []; sp_metafail := false; sp_absent := [] |};
+           {| sp_prefix := 7; sp_W := 2; sp_iofail := []; sp_metafail := false; sp_absent := [] |} ],
+         (steps [(0, 0); (0, 1); (0, 1); (0, 0); (0, 0); (0, 0); (0, 0); (0, 1); (0, 1)]%nat),
+         (steps [(1, 0); (1, 0); (1, 0); (1, 0)]%nat).
   split; [reflexivity|]. split; [intros sp _ r; reflexivity|].
-  split; [repeat constructor|]. split; [repeat constructor|].
+  split; [repeat constructor|]. split; [repeat constructor|]. split; [repeat constructor|].
   vm_compute. repeat split.
 Qed.
 Print Assumptions C13_shared_prefix_refuted.
 
 (* After a failed snapshot (rank 1's I/O fails; every rank Raised), a fault-free snapshot on the same prefix
-   ends Raised on the stale error key. *)
+   ends Raised on the stale error key - without any timeout step. *)
 Theorem C13_stale_error_refuted : exists h sch1 sch2 x,
   map sp_prefix h = [7; 7] /\ fresh [] h /\
-  Forall (fun c => fst c = 0%nat) sch1 /\ Forall (fun c => fst c = 1%nat) sch2 /\
+  Forall (fun c => c_inst c = 0%nat) sch1 /\ Forall (fun c => c_inst c = 1%nat) sch2 /\
+  Forall (fun c => is_timeout c = false) (sch1 ++ sch2) /\
   BarrierOutcomes (grun (ginit [] h) sch1) 0 = [1; 1] /\
-  nth_error (g_insts (grun (ginit [] h) (sch1 ++ sch2))) 1 = Some x /\ no_fault x /\
+  nth_error (g_insts (grun (ginit [] h) (sch1 ++ sch2))) 1 = Some x /\ no_fault x /\ no_absent x /\ no_timeout x /\
   BarrierOutcomes (grun (ginit [] h) (sch1 ++ sch2)) 1 = [1; 1].
 Proof.
-  pose (h := [ {| sp_prefix := 7; sp_W := 2%nat; sp_iofail := [1%nat]; sp_metafail := false |};
-               {| sp_prefix := 7; sp_W := 2%nat; sp_iofail := []; sp_metafail := false |} ]).
-  pose (sch1 := [(0, 0); (0, 1); (0, 1); (0, 0); (0, 0); (0, 0); (0, 0)]%nat).
-  pose (sch2 := [(1, 0); (1, 1); (1, 1); (1, 1); (1, 1); (1, 1); (1, 0); (1, 0); (1, 0); (1, 0)]%nat).
-  destruct (C13_history_static [] h (sch1 ++ sch2) 1%nat _ eq_refl) as (x & Hx & _ & HW & HF & HM).
+  pose (h := [ {| sp_prefix := 7; sp_W := 2%nat; sp_iofail := [1%nat]; sp_metafail := false; sp_absent := [] |};
+               {| sp_prefix := 7; sp_W := 2%nat; sp_iofail := []; sp_metafail := false; sp_absent := [] |} ]).
+  pose (sch1 := steps [(0, 0); (0, 1); (0, 1); (0, 0); (0, 0); (0, 0); (0, 0)]%nat).
+  pose (sch2 := steps [(1, 0); (1, 1); (1, 1); (1, 1); (1, 1); (1, 1); (1, 0); (1, 0); (1, 0); (1, 0)]%nat).
+  destruct (C13_history_static [] h (sch1 ++ sch2) 1%nat _ eq_refl) as (x & Hx & _ & HW & HF & HM & HA).
+  assert (HS : Forall (fun c => is_timeout c = false) (sch1 ++ sch2)) by repeat constructor.
   exists h, sch1, sch2, x.
   split; [reflexivity|]. split; [intros sp _ r; reflexivity|].
-  split; [repeat constructor|]. split; [repeat constructor|].
-  split; [vm_compute; reflexivity|]. split; [exact Hx|]. split.
+  split; [repeat constructor|]. split; [repeat constructor|]. split; [exact HS|].
+  split; [vm_compute; reflexivity|]. split; [exact Hx|]. split; [|split; [|split]].
   - split; [|exact HM]. intros r _. unfold iofails. rewrite HF. reflexivity.
+  - intros r _. unfold absent. rewrite HA. reflexivity.
+  - intros r _. exact (C13_timeout_free_schedule_sets_no_flag [] h _ 1%nat x HS Hx r).
   - vm_compute. reflexivity.
 Qed.
 Print Assumptions C13_stale_error_refuted.
 
+(* ================================================================== examples (vm_compute) *)
+Definition C13sp (p : Z) (w : nat) (f : list nat) (m : bool) (a : list nat) : spec :=
+  {| sp_prefix := p; sp_W := w; sp_iofail := f; sp_metafail := m; sp_absent := a |}.
+(* per rank: (normal step enabled, timeout enabled) *)
+Definition C13en (s : gstate) (w : nat) : list (bool * bool) :=
+  map (fun r => (enabled s (0, r, KStep)%nat, enabled s (0, r, KTimeout)%nat)) (seq 0 w).
+
 (* Non-vacuity: W = 3, one complete successful schedule; and the same with rank 1's I/O failing. *)
 Example C13_example_success :
-  let h := [ {| sp_prefix := 1; sp_W := 3; sp_iofail := []; sp_metafail := false |} ] in
-  let s := grun (ginit [] h) [(0, 2); (0, 0); (0, 1); (0, 1); (0, 2); (0, 0); (0, 0); (0, 0); (0, 0); (0, 0);
-                              (0, 2); (0, 1); (0, 1); (0, 2)]%nat in
+  let h := [ C13sp 1 3 [] false [] ] in
+  let s := grun (ginit [] h) (steps [(0, 2); (0, 0); (0, 1); (0, 1); (0, 2); (0, 0); (0, 0); (0, 0); (0, 0); (0, 0);
+                                     (0, 2); (0, 1); (0, 1); (0, 2)]%nat) in
   fresh [] h /\ distinct_prefixes h /\
   BarrierOutcomes s 0 = [0; 0; 0] /\ BarrierMeta s 0 = true /\ BarrierIoDone s 0 = [true; true; true] /\
-  map (fun r => enabled s (0, r)%nat) [0; 1; 2]%nat = [false; false; false].
+  C13en s 3 = [(false, false); (false, false); (false, false)].
 Proof.
   cbv zeta. split; [intros sp _ r; reflexivity|]. split; [repeat constructor; cbn; tauto|].
   vm_compute. repeat split.
 Qed.
 
 Example C13_example_rank1_io_fails :
-  let h := [ {| sp_prefix := 1; sp_W := 3; sp_iofail := [1%nat]; sp_metafail := false |} ] in
-  let s := grun (ginit [] h) [(0, 0); (0, 1); (0, 2); (0, 2); (0, 1); (0, 0); (0, 0); (0, 0); (0, 2); (0, 0);
-                              (0, 2); (0, 2)]%nat in
+  let h := [ C13sp 1 3 [1%nat] false [] ] in
+  let s := grun (ginit [] h) (steps [(0, 0); (0, 1); (0, 2); (0, 2); (0, 1); (0, 0); (0, 0); (0, 0); (0, 2); (0, 0);
+                                     (0, 2); (0, 2)]%nat) in
   BarrierOutcomes s 0 = [1; 1; 1] /\ BarrierMeta s 0 = false /\ BarrierIoDone s 0 = [true; false; true] /\
-  map (fun r => enabled s (0, r)%nat) [0; 1; 2]%nat = [false; false; false].
+  C13en s 3 = [(false, false); (false, false); (false, false)].
 Proof. vm_compute. repeat split. Qed.
 
 Example C13_example_metadata_write_fails :
-  let h := [ {| sp_prefix := 1; sp_W := 2; sp_iofail := []; sp_metafail := true |} ] in
-  let s := grun (ginit [] h) [(0, 0); (0, 1); (0, 1); (0, 0); (0, 0); (0, 0); (0, 0); (0, 1); (0, 1); (0, 1)]%nat in
+  let h := [ C13sp 1 2 [] true [] ] in
+  let s := grun (ginit [] h) (steps [(0, 0); (0, 1); (0, 1); (0, 0); (0, 0); (0, 0); (0, 0); (0, 1); (0, 1); (0, 1)]%nat) in
   BarrierOutcomes s 0 = [1; 1] /\ BarrierMeta s 0 = false /\ BarrierIoDone s 0 = [true; true].
+Proof. vm_compute. repeat split. Qed.
+
+(* C13_timeout_raises_and_reports, run: fault-free W = 2; both ranks finished their I/O, rank 1 has arrived; the
+   leader's wait for rank 1's key times out SPURIOUSLY (the key is there: its normal step is enabled too).  The
+   timeout step changes no key; the leader's next step writes its error key; rank 1 reads it in depart: both Raised,
+   nothing committed although no I/O failed. *)
+Example C13_example_leader_timeout :
+  let h := [ C13sp 1 2 [] false [] ] in
+  let s0 := grun (ginit [] h) (steps [(0, 0); (0, 1); (0, 1)]%nat) in
+  let s1 := grun s0 [(0, 0, KTimeout)%nat] in
+  let s2 := grun s1 (steps [(0, 0)]%nat) in
+  let s3 := grun s2 (steps [(0, 1); (0, 1); (0, 1)]%nat) in
+  C13en s0 2 = [(true, true); (false, true)] /\
+  snd (gstep s0 (0, 0, KTimeout)%nat) = Some (OTimeout 1 [1%nat]) /\
+  BarrierKeys s1 0 = [None; Some VOk] /\ BarrierOutcomes s1 0 = [2; 2] /\ BarrierTimedOut s1 0 = [true; false] /\
+  snd (gstep s1 (0, 0, KStep)%nat) = Some (OSet 1 0 VErr) /\
+  BarrierKeys s2 0 = [Some VErr; Some VOk] /\ BarrierOutcomes s2 0 = [1; 2] /\
+  BarrierOutcomes s3 0 = [1; 1] /\ BarrierMeta s3 0 = false /\ BarrierIoDone s3 0 = [true; true] /\
+  BarrierTimedOut s3 0 = [true; false] /\ C13en s3 2 = [(false, false); (false, false)].
+Proof. vm_compute. repeat split. Qed.
+
+(* C13_absent_rank_means_nobody_succeeds, run (PEER absent): W = 3, rank 2 never shows up.  Without timeouts the leader
+   and rank 1 block for ever (no normal step enabled, both timeouts enabled); the leader's timeout alone ends it:
+   rank 1 reads the leader's error key - it raises WITHOUT a timeout of its own. *)
+Example C13_example_absent_peer_blocks :
+  let h := [ C13sp 1 3 [] false [2%nat] ] in
+  let s := grun (ginit [] h) (steps [(0, 0); (0, 1); (0, 1); (0, 2); (0, 0)]%nat) in
+  BarrierOutcomes s 0 = [2; 2; 3] /\ BarrierKeys s 0 = [None; Some VOk; None] /\
+  C13en s 3 = [(false, true); (false, true); (false, false)].
+Proof. vm_compute. repeat split. Qed.
+
+Example C13_example_absent_peer :
+  let h := [ C13sp 1 3 [] false [2%nat] ] in
+  let s := grun (ginit [] h) (steps [(0, 0); (0, 1); (0, 1); (0, 2); (0, 0)]%nat ++ [(0, 0, KTimeout)%nat] ++
+                              steps [(0, 0); (0, 1); (0, 1); (0, 1)]%nat) in
+  BarrierOutcomes s 0 = [1; 1; 3] /\ BarrierMeta s 0 = false /\ BarrierTimedOut s 0 = [true; false; false] /\
+  BarrierKeys s 0 = [Some VErr; Some VErr; None] /\
+  C13en s 3 = [(false, false); (false, false); (false, false)].
+Proof. vm_compute. repeat split. Qed.
+
+(* LEADER absent: W = 3; ranks 1 and 2 arrive and wait for the leader's key, which nobody will ever write; each of
+   them leaves only through its OWN timeout. *)
+Example C13_example_absent_leader :
+  let h := [ C13sp 1 3 [] false [0%nat] ] in
+  let s0 := grun (ginit [] h) (steps [(0, 0); (0, 1); (0, 1); (0, 2); (0, 2); (0, 1); (0, 2)]%nat) in
+  let s1 := grun s0 ([(0, 1, KTimeout)%nat] ++ steps [(0, 1)]%nat) in
+  let s2 := grun s1 ([(0, 2, KTimeout)%nat] ++ steps [(0, 2)]%nat) in
+  BarrierOutcomes s0 0 = [3; 2; 2] /\ C13en s0 3 = [(false, false); (false, true); (false, true)] /\
+  BarrierOutcomes s1 0 = [3; 1; 2] /\ C13en s1 3 = [(false, false); (false, false); (false, true)] /\
+  BarrierOutcomes s2 0 = [3; 1; 1] /\ BarrierMeta s2 0 = false /\ BarrierTimedOut s2 0 = [false; true; true] /\
+  BarrierKeys s2 0 = [None; Some VErr; Some VErr].
+Proof. vm_compute. repeat split. Qed.
+
+(* fair schedules, computed: round-robin of normal steps completes a fault-free snapshot; round-robin with fair
+   timeouts terminates a snapshot whose leader is absent *)
+Example C13_example_round_robin :
+  let s := ginit [] [ C13sp 1 3 [] false [] ] in
+  let t := ginit [] [ C13sp 1 3 [] false [0%nat] ] in
+  BarrierOutcomes (grun s (rounds s (S (gmeasure s)))) 0 = [0; 0; 0] /\
+  BarrierMeta (grun s (rounds s (S (gmeasure s)))) 0 = true /\
+  BarrierOutcomes (grun t (rounds t (S (gmeasure t)))) 0 = [3; 2; 2] /\
+  BarrierOutcomes (grun t (rounds_t t (S (gmeasure t)))) 0 = [3; 1; 1] /\
+  BarrierMeta (grun t (rounds_t t (S (gmeasure t)))) 0 = false.
 Proof. vm_compute. repeat split. Qed.
